@@ -240,6 +240,22 @@ def check_sampling_case(case):
         m = coreops.build_model(spec)
         if m.slim_optimize() != m.slim_optimize() or m.solver.status != "optimal":
             return None, "not-feasible"
+        extra = None
+        if case.get("extra_eq") and len(m.reactions) >= 2:
+            # a user constraint with a non-zero right-hand side, met by the optimum the model already has: the polytope stays non-empty, and samples
+            # have to stay on it in every batch
+            sol = m.optimize()
+            ra, rb = m.reactions[0], m.reactions[-1]
+            c = float(sol.fluxes[ra.id] + 2 * sol.fluxes[rb.id])
+            if abs(c) > 1e-6:
+                con = m.problem.Constraint(ra.flux_expression + 2 * rb.flux_expression, lb=c, ub=c, name="extra_c14")
+                m.add_cons_vars([con])
+                extra = (ra.id, rb.id, c)
+
+        def off_constraint(df):
+            if extra is None or not len(df):
+                return 0.0
+            return float(np.abs(df[extra[0]] + 2 * df[extra[1]] - extra[2]).max())
         frames = []
         second = []
         for rep in range(2):
@@ -261,9 +277,19 @@ def check_sampling_case(case):
                 return None, f"sampler-failed-{type(e).__name__}"
             try:
                 df2 = s.sample(case["n"])          # a second batch from the same sampler
+                df3 = s.sample(case["n"])          # ... and a third
             except Exception as e:
-                return None, f"sampler-failed-{type(e).__name__}"
+                # the first batch came back: the region is not the problem
+                fails.append(f"a later batch of the same sampler raised {type(e).__name__}: {str(e)[:120]} (the first batch succeeded)")
+                break
             second.append(df2)
+            for label, d in (("first", df), ("second", df2), ("third", df3)):
+                dev = off_constraint(d)
+                if dev > 1e-6 * (1 + abs(extra[2] if extra else 0)):
+                    fails.append(f"{label} batch: samples leave the user constraint {extra[0]} + 2 {extra[1]} = {extra[2]} by {dev}")
+            bad3 = [v for v in s.validate(df3.values) if v != "v"]
+            if bad3:
+                fails.append(f"{len(bad3)} samples of a third batch are not valid: {sorted(set(bad3))}")
             bad2 = [v for v in s.validate(df2.values) if v != "v"]
             if bad2:
                 fails.append(f"{len(bad2)} samples of a second batch are not valid: {sorted(set(bad2))}")
@@ -287,10 +313,11 @@ def gen_case(rng, tier):
     spec = gen_spec(rng)
     rids = [r["id"] for r in spec["rxns"]]
     gids = sorted({g for r in spec["rxns"] for g in r["rule"].replace("(", " ").replace(")", " ").split() if g not in ("and", "or")})
-    if rng.random() < 0.15:
+    if rng.random() < 0.2:
         p = rng.choice([2, 3, 4])
         return {"kind": "sampling", "spec": spec, "processes": p, "n": rng.choice([3, 5, 8, 9, 12]), "thinning": rng.choice([1, 3]),
-                "sampler_seed": rng.choice([0, 0, 1, rng.randint(2, 10 ** 6), rng.randint(2, 10 ** 6), 2 ** 31 - 1, 2 ** 31 + 5])}
+                "sampler_seed": rng.choice([0, 0, 1, rng.randint(2, 10 ** 6), rng.randint(2, 10 ** 6), 2 ** 31 - 1, 2 ** 31 + 5]),
+                "extra_eq": rng.random() < 0.6}
     kind = rng.choice(["fva", "fva", "fva", "single_gene", "single_reaction", "double_reaction", "double_gene", "double_gene", "blocked",
                        "essential_genes", "essential_reactions"])
     if kind in ("single_gene", "double_gene") and len(gids) < 2:
